@@ -24,7 +24,7 @@ RULE = (
 ASSUMPTIONS = ["dihedral / alternating conventions for n <= 2 as stated in the library's docstrings", "Greene brute force up to length 7 (8 thorough)"]
 REQUIRED = ["calls.Perm.stack_sort", "calls.Perm.pop_stack_sort", "calls.Perm.bubble_sort", "calls.Perm.quick_sort", "calls.Perm.west_2_stack_sortable",
             "calls.Bijections.simion_and_schmidt", "calls.pp.baxter", "calls.pp.simsun", "calls.pp.yt_perm_avoids_22", "ss.bijection_levels",
-            "ss.rejected", "characterisation.checked", "derived.images", "faults.injected", "dihedral.affine_near_members", "bkv.checked", "ss.long_members", "interpreter.asserts_disabled", "devices.long_inputs"]
+            "ss.rejected", "characterisation.checked", "derived.images", "faults.injected", "dihedral.affine_near_members", "bkv.checked", "ss.long_members", "interpreter.asserts_disabled", "devices.long_inputs", "notation.twins_checked", "history.used_objects"]
 MIN_NONTRIVIAL = 3000
 RECURSIVE_DEVICES = {"stack_sort", "stack_sortable", "west_2_stack_sortable", "west_3_stack_sortable", "count_stack_sorts", "bubble_sort", "bubble_sortable",
                      "quick_sort", "quick_sortable"}
@@ -190,6 +190,37 @@ def chk_perm(ctx, p):
     P.count_stack_sorts(), P.count_pop_stack_sorts(), P.west_3_stack_sortable(), P.stack_sort(), P.quick_sort()
 
 
+def chk_used_object(ctx, p, how):
+    """history: the SAME object served as a search pattern / basis element / shared standardisation result before it is
+    sorted, mapped and classified (all judged by the monitors as always)"""
+    P = Perm(p)
+    big = Perm(list(p) + [len(p)])
+    if how == "pattern":
+        big.contains(P), list(P.occurrences_in(big))
+    elif how == "mesh":
+        from permuta import MeshPatt
+
+        list(MeshPatt(P, [(0, 0)]).occurrences_in(big))
+    elif how == "shared":
+        P = Perm.to_standard(list(p))
+        big.contains(P)
+    else:
+        from permuta import Av
+
+        Av([P, Perm(list(range(len(p) + 2)))]).count(min(len(p) + 1, 5))
+    for inverse in (False, True):
+        try:
+            Q = Bijections.simion_and_schmidt(P, inverse)
+            Bijections.simion_and_schmidt(Q, not inverse)
+        except ValueError:
+            pass
+    P.stack_sort(), P.pop_stack_sort(), P.bubble_sort(), P.quick_sort(), P.stack_sortable(), P.west_2_stack_sortable()
+    for name in PP_ORACLES:
+        if not (name.startswith("yt_") and len(p) > GREENE_MAX[ctx.tier]):
+            getattr(PP, name)(P)
+    ctx.count("history.used_objects")
+
+
 def chk_ss(ctx, p, inverse):
     P = Perm(p)
     try:
@@ -204,6 +235,42 @@ def chk_ss(ctx, p, inverse):
     ctx.ev()
     if back != P:
         report("ss", [p, inverse], f"inverse does not undo the map: {P!r} -> {Q!r} -> {back!r}")
+
+
+def tokenisations(text, n):
+    """all ways to read a digit string as a permutation of 0..n-1 written without separators"""
+    out = []
+
+    def rec(pos, used, acc):
+        if pos == len(text):
+            if len(acc) == n:
+                out.append(tuple(acc))
+            return
+        for width in (1, 2, 3):
+            tok = text[pos: pos + width]
+            if len(tok) < width or (width > 1 and tok[0] == "0"):
+                continue
+            v = int(tok)
+            if v < n and v not in used:
+                rec(pos + width, used | {v}, acc + [v])
+
+    rec(0, frozenset(), [])
+    return out
+
+
+def chk_notation_twins(ctx, n):
+    """permutations of length >= 11 whose one-line notation WITHOUT separators reads like (a piece of) a doubled monotone word:
+    the members of the dihedral group and the few others that only look like them as digit strings"""
+    size = sum(len(str(v)) for v in range(n))
+    cands = set()
+    for base in (list(range(n)), list(range(n - 1, -1, -1))):
+        doubled = "".join(map(str, base + base))
+        for start in range(len(doubled) - size + 1):
+            cands.update(tokenisations(doubled[start: start + size], n))
+    for t in sorted(cands):
+        PP.dihedral(Perm(t))  # judged by the monitor
+        Perm(t).inverse(), str(Perm(t))
+    ctx.count("notation.twins_checked", len(cands))
 
 
 def chk_ss_long(ctx, n, seed):
@@ -285,7 +352,7 @@ def chk_dihedral_fault(ctx, n, k):
     PP.dihedral(Perm(list(range(1, n)) + [0][:1]) if n > 3 else probe)
 
 
-CHECKS = {"deviceslong": chk_devices_long, "sslong": chk_ss_long, "perm": chk_perm, "ss": chk_ss, "sslevel": chk_ss_level, "dihedralfault": chk_dihedral_fault}
+CHECKS = {"used": chk_used_object, "twins": chk_notation_twins, "deviceslong": chk_devices_long, "sslong": chk_ss_long, "perm": chk_perm, "ss": chk_ss, "sslevel": chk_ss_level, "dihedralfault": chk_dihedral_fault}
 
 
 def plan(tier, seed):
@@ -308,6 +375,8 @@ def run(ctx, spec):
                 chk_perm(ctx, list(p))
                 chk_ss(ctx, list(p), False)
                 chk_ss(ctx, list(p), True)
+                if i % 2 == 0 and p:
+                    chk_used_object(ctx, list(p), ("pattern", "mesh", "shared", "basis")[(i // 2) % 4])
         ctx.note(f"exhaustive: S_{spec['n']} part {spec['part']}/{spec['parts']}")
     elif spec["kind"] == "sslevels_O":
         ctx.counters["interpreter.asserts_disabled"] = int(not __debug__)
@@ -328,6 +397,8 @@ def run(ctx, spec):
             chk_ss_long(ctx, n, rng.randrange(10 ** 9))
         for n in (400, 700, 1100):
             chk_devices_long(ctx, n, rng.randrange(10 ** 9))
+        for n in (10, 11, 12, 13, 14):
+            chk_notation_twins(ctx, n)
     elif spec["kind"] == "sslevels":
         for n in range(min(spec["nmax"], 8) + 2):
             chk_ss_level(ctx, n)
